@@ -30,6 +30,7 @@ import (
 	"strings"
 	"sync"
 	"syscall"
+	"time"
 	"unsafe"
 
 	"github.com/opencontainers/go-digest"
@@ -76,6 +77,7 @@ type Scenario struct {
 	Via          string `json:"via"` // memory | oci
 	Tamper       bool   `json:"tamper"`
 	ReproPair    bool   `json:"reproPair"`
+	Foreign      uint64 `json:"foreign,omitempty"` // != 0: also push a re-ordered archive of the first directory (seed)
 }
 
 func hx(s string) string   { return hex.EncodeToString([]byte(s)) }
@@ -338,6 +340,9 @@ func genScenario(r *common.Rand, idx int) *Scenario {
 	sc.Via = common.Pick(r, []string{"memory", "oci", "memory", "oci", "remote"})
 	sc.Tamper = r.Chance(1, 3)
 	sc.ReproPair = r.Chance(1, 2)
+	if r.Chance(1, 3) {
+		sc.Foreign = 1 + r.U64()%1000000
+	}
 	if idx < 240 {
 		// the first scenarios walk through every intermediate store x SkipUnpack x ForceCAS x IgnoreNoName
 		sc.Via = []string{"memory", "oci", "remote"}[idx%3]
@@ -1010,6 +1015,14 @@ func runScenario(sc *Scenario) {
 	}
 
 	// ---- unpack verification clause
+	if sc.Foreign != 0 {
+		for _, it := range sc.Items {
+			if it.Tree.Kind == "d" {
+				foreignCase(ctx, sc, tail, work, it)
+				break
+			}
+		}
+	}
 	if sc.Tamper {
 		for i, it := range sc.Items {
 			if it.Tree.Kind != "d" {
@@ -1358,6 +1371,119 @@ func tamperCases(ctx context.Context, sc *Scenario, scid, tail, work string, i i
 		}
 		os.RemoveAll(dir)
 	}
+}
+
+// ---------- archives that tarDirectory would not write ----------
+
+type fent struct {
+	name, typ string // typ f d l
+	mode      uint32
+	data      []byte
+	target    string
+	hash      string
+}
+
+// walkEntries lists a tree the way tarDirectory does (pre-order, names sorted byte-wise).
+func walkEntries(n *Node, name string, out *[]fent) {
+	switch n.Kind {
+	case "f":
+		*out = append(*out, fent{name: name, typ: "f", mode: n.Mode, data: content(n.Seed, n.Len), hash: contentHash(n.Seed, n.Len)})
+	case "l":
+		*out = append(*out, fent{name: name, typ: "l", mode: 0o777, target: n.target()})
+	case "d":
+		*out = append(*out, fent{name: name, typ: "d", mode: n.Mode})
+		kids := append([]*Node{}, n.Children...)
+		sort.Slice(kids, func(i, j int) bool { return kids[i].name() < kids[j].name() })
+		for _, c := range kids {
+			walkEntries(c, name+"/"+c.name(), out)
+		}
+	}
+}
+
+// foreignCase pushes an archive of the directory whose entries are re-ordered, lack the root
+// entry or carry a second one, straight into a fresh file store, and records what was
+// extracted.  Correspondence only (the property speaks of archives written by Add): it ties the
+// model's handling of missing parents, of the base directory's recorded mode and of the
+// order-dependent link checks to extractTarDirectory beyond tarDirectory's own output.
+func foreignCase(ctx context.Context, sc *Scenario, tail, work string, it Item) {
+	name := filepath.ToSlash(filepath.Clean(unhx(it.Name)))
+	r := common.NewRand(sc.Foreign)
+	var es []fent
+	walkEntries(it.Tree, name, &es)
+	variant := r.Intn(6)
+	switch variant {
+	case 1: // no root entry
+		es = es[1:]
+	case 2: // root entry last
+		es = append(es[1:], es[0])
+	case 3: // a second root entry with another mode
+		es = append(es, fent{name: name, typ: "d", mode: common.Pick(r, dirModes)})
+	case 4: // any order
+		common.Shuffle(r, es)
+	case 5: // two neighbours swapped
+		if len(es) > 2 {
+			i := 1 + r.Intn(len(es)-2)
+			es[i], es[i+1] = es[i+1], es[i]
+		}
+	}
+	run.Count(fmt.Sprintf("foreign-variant=%d", variant))
+	var tarb bytes.Buffer
+	tw := tar.NewWriter(&tarb)
+	var toks []string
+	for _, e := range es {
+		h := &tar.Header{Name: e.name, Mode: int64(e.mode), ModTime: time.Unix(baseTime, 0)}
+		payload := "-"
+		switch e.typ {
+		case "f":
+			h.Typeflag, h.Size, payload = tar.TypeReg, int64(len(e.data)), e.hash
+		case "d":
+			h.Typeflag = tar.TypeDir
+		case "l":
+			h.Typeflag, h.Linkname, payload = tar.TypeSymlink, e.target, common.Hex(e.target)
+		}
+		if err := tw.WriteHeader(h); err != nil {
+			return // a name the tar writer refuses: nothing to compare
+		}
+		if e.typ == "f" {
+			tw.Write(e.data)
+		}
+		toks = append(toks, fmt.Sprintf("%s %s %d %s", relHex(e.name), e.typ, e.mode, payload))
+	}
+	tw.Close()
+	var gzb bytes.Buffer
+	zw := gzip.NewWriter(&gzb)
+	zw.Write(tarb.Bytes())
+	zw.Close()
+	blob := gzb.Bytes()
+	desc := ocispec.Descriptor{MediaType: ocispec.MediaTypeImageLayerGzip, Digest: digest.FromBytes(blob), Size: int64(len(blob)),
+		Annotations: map[string]string{ocispec.AnnotationTitle: unhx(it.Name), file.AnnotationUnpack: "true",
+			file.AnnotationDigest: string(digest.FromBytes(tarb.Bytes()))}}
+	dir := filepath.Join(work, "foreign")
+	os.MkdirAll(dir, 0o755)
+	defer os.RemoveAll(dir)
+	st, err := file.New(dir)
+	if err != nil {
+		panic(err)
+	}
+	st.PreservePermissions = sc.Preserve
+	perr := st.Push(ctx, desc, bytes.NewReader(blob))
+	st.Close()
+	id := run.NewID()
+	input := fmt.Sprintf("E %d %d %s %d %s%s", sc.Umask, b2i(sc.Preserve), nameComps(unhx(it.Name)), len(es), strings.Join(toks, " "), tail)
+	if perr != nil {
+		run.Case(id, input, strings.SplitN(errClass(perr), ":", 2)[0])
+		run.Count("foreign=" + strings.SplitN(errClass(perr), ":", 2)[0])
+		run.Nontrivial(input)
+		return
+	}
+	got, serr := snapshot(filepath.Join(dir, name))
+	if serr != nil {
+		run.OracleFail(id, "snapshot", serr.Error(), sc)
+		return
+	}
+	run.Case(id, input, "OK "+listing(got))
+	run.Count("foreign=OK")
+	run.Nontrivial(input)
 }
 
 // enumSmall runs every directory with at most two entries "a" and "b", each a file, a symlink
